@@ -46,7 +46,7 @@ func (f *vtr) Call(s *slip.Scope, args slip.List, depth int) slip.Object {
 				e.Args = append(e.Args, isAlt[objKey(a)])
 			}
 		}
-		trace = append(trace, e)
+		record(s, e)
 	}
 	return args[0]
 }
@@ -56,9 +56,9 @@ type vnp struct{ slip.Function }
 // (vnp (next-method-p)) records the answer
 func (f *vnp) Call(s *slip.Scope, args slip.List, depth int) slip.Object {
 	if args[0] == nil {
-		trace = append(trace, tev{Nmp: 1})
+		record(s, tev{Nmp: 1})
 	} else {
-		trace = append(trace, tev{Nmp: 2})
+		record(s, tev{Nmp: 2})
 	}
 	return args[0]
 }
@@ -638,5 +638,6 @@ func Run(ctx *common.Ctx) {
 	footer := "Definition res := Eval vm_compute in check_all cases.\nPrint res.\n" +
 		"Definition gcount := Eval vm_compute in guard_count cases.\nPrint gcount.\n"
 	ctx.WriteShards("cases", header, "case", footer, terms, descs, 16)
+	runConcurrent(ctx)
 	ctx.ReplayKnownLisp()
 }
